@@ -11,7 +11,7 @@ import json
 import warnings
 
 from harness import iocheck as io
-from harness.gen.pddlgen import IoGenProblem, add_temporal
+from harness.gen.pddlgen import IoGenProblem, add_temporal, corpus_anml, corpus_pddl
 from harness.props.c18 import features, report
 
 META = {
@@ -57,6 +57,43 @@ def key_from_mapping(mapping):
     return key
 
 
+def _norm_type(t, name_of):
+    if t.is_bool_type():
+        return ("bool",)
+    if t.is_user_type():
+        return ("user", name_of(t))
+    return ("int" if t.is_int_type() else "real", t.lower_bound, t.upper_bound)
+
+
+def types_differ(P, Q, mapping):
+    """direct comparison of the declared types (fluent result and parameter types, action parameter types) of the
+    original and the re-read problem under the writer's renaming; the bounds of numeric types are part of the type"""
+    out = []
+    inv = {v: k for k, v in mapping.items() if hasattr(k, "is_user_type")}
+    idp = lambda t: t.name                                   # noqa: E731
+    idq = lambda t: getattr(inv.get(t.name), "name", "?" + t.name)    # noqa: E731
+    for f in P.fluents:
+        try:
+            fq = Q.fluent(mapping[f])
+        except Exception:  # noqa
+            out.append("fluent %s is missing" % f.name)
+            continue
+        a = [_norm_type(f.type, idp)] + [_norm_type(pp.type, idp) for pp in f.signature]
+        b = [_norm_type(fq.type, idq)] + [_norm_type(pp.type, idq) for pp in fq.signature]
+        if a != b:
+            out.append("fluent %s: %s became %s" % (f.name, a, b))
+    for a in P.actions:
+        try:
+            aq = Q.action(mapping[a])
+        except Exception:  # noqa
+            continue
+        x = [_norm_type(pp.type, idp) for pp in a.parameters]
+        y = [_norm_type(pp.type, idq) for pp in aq.parameters]
+        if x != y:
+            out.append("action %s parameters: %s became %s" % (a.name, x, y))
+    return out
+
+
 def gen_anml(rng, temporal):
     g = IoGenProblem(rng, target="anml", metrics=False, obj_fluents=rng.random() < 0.6, undef_num=True, bounded=rng.random() < 0.5,
                      forall=rng.random() < 0.5, conditional=True)
@@ -97,10 +134,16 @@ def run(ctx):
     cap_writer = Captured()
     cases, owners = [], []
     generated = attempts = 0
-    while generated < nprob and attempts < nprob * 8:
+    hands = corpus_anml() + corpus_pddl()       # hand-written corner problems first (not counted in nprob)
+    stats["corner_corpus"] = [h.label for h in hands]
+    while (generated < nprob or hands) and attempts < nprob * 8:
         attempts += 1
-        temporal = rng.random() < 0.5
-        g = gen_anml(rng, temporal)
+        if hands:
+            g, temporal = hands.pop(0), False
+            generated -= 1
+        else:
+            temporal = rng.random() < 0.5
+            g = gen_anml(rng, temporal)
         if g.bad:
             stats["generator_artefact"][g.bad[:50]] = stats["generator_artefact"].get(g.bad[:50], 0) + 1
             continue
@@ -134,6 +177,10 @@ def run(ctx):
             ctx.fail("impl-exception", "ANMLReader rejects the writer's output: %s: %s" % (type(e).__name__, " ".join(str(e).split())[:160]),
                      ["c19", "reader-anml", "reader-rejects", type(e).__name__, site[0]] + sorted(feats), dict(payload, site=site), True)
             continue
+        td = types_differ(P, Q, mapping)
+        if td:
+            ctx.fail("oracle", "ANML round trip changes a declared type: %s" % td[0], ["c19", "reader-anml", "type-differs"] + sorted(feats),
+                     dict(payload, reread=str(Q), type_differences=td), True)
         try:
             case, info = io.build_case(P, Q, key_from_mapping(mapping), depth, cap)
         except io.OutOfFragment as e:
